@@ -12,6 +12,7 @@ drop of a slot, nothing outside the container written.
 -/
 import Micromap.Proofs.SysInv
 import Micromap.Proofs.Disjoint
+import Micromap.Proofs.Ledger
 
 namespace Micromap.Props.C17
 open Micromap SetAlg Dict
@@ -51,6 +52,20 @@ theorem disjoint_refs_never_alias {s : St K V Q} (hs : Safe s.r) (ks : List (Pro
   refine Sat.mono (Disjoint.checked_sat E hs.rep ks) ?_ (fun _ _ h => h.1)
   intro res s' ⟨h1, _, h3, h4, h5, _⟩
   exact ⟨h1, h3, fun t j h => by rw [hs.rep.1]; exact h4 t j h, h5⟩
+
+/-- **Every element is still destroyed exactly once, whatever `==` answers.**  For any history
+    of the owning dictionary operations under an arbitrary oracle: passed in = stored ⊎ handed back
+    ⊎ destroyed, as a multiset equation (through all weightings `w`).  A lying `==` changes WHICH
+    branch an operation takes (wrong answers), never the balance. -/
+theorem ledger_any_oracle (hv : E.vGlue = true) (cap : Nat) (w0 : World K V Q) (hb : Benign w0)
+    (ops : List (Ledger.LOp K V Q)) (w : Obj K V → Nat) :
+    ∃ sf back tr lf, Ledger.lmhist E ops ⟨Raw.new cap, w0⟩ = some (sf, back) ∧ Rep sf.r lf ∧
+      WRel w0 sf.w tr ∧
+      Ledger.wsum w (ops.flatMap Ledger.LOp.inObjs) =
+        Ledger.wpairs w lf + Ledger.wsum w back + Ledger.wsum w (Ledger.droppedOf tr) := by
+  obtain ⟨sf, back, tr, lf, h1, h2, _, h4, h5⟩ :=
+    Ledger.lmhist_conserves E hv w ops ⟨Raw.new cap, w0⟩ [] (Rep.new cap) hb
+  exact ⟨sf, back, tr, lf, h1, h2, h4, by simpa using h5⟩
 
 /-- one step under any oracle and any injection. -/
 theorem step_safe_any_oracle {sys : Sys K V Q} (hs : SysInv E sys) (op : Op K V Q)
